@@ -51,6 +51,13 @@ def compare(rep, exe, plans, label="expand"):
             if len(mv) > 4:
                 rep.count(label + ":expandWF=" + str(mv[3]))
                 rep.count(label + ":wildcardsFixed=" + str(mv[4]))
+            if len(mv) > 5 and mv[5]:
+                # inherent mode: hypotheses (ExInh.sideConditions) and conclusion of C17_expandOK_of_expand_inherent on the model's expansion
+                rep.count(label + ":inherent-sideConditions=" + str(mv[5][0]))
+                if mv[5][0] == "1":
+                    rep.count("theorem-instances-checked:C17_expandOK_of_expand_inherent")
+                    if mv[5][1] != "1":
+                        rep.broken.append("instance of C17_expandOK_of_expand_inherent false in the executable model: " + p.invocation_text()[:400])
             # helper trait (trait mode)
             if mv[0][0] == "unmodelled":
                 rep.count(label + ":helper-trait-unmodelled")
